@@ -447,7 +447,7 @@ impl Prop for C11 {
             let mut tree = Tree::default();
             tree.files.insert("f".into(), TFile { data: B::new("a\nb\nc\nd\ne\n"), mode: 0o644 });
             tree.files.insert("src/f.c".into(), TFile { data: B::new("a\nb\nc\n"), mode: 0o644 });
-            let spec = WsSpec { tree, patches: vec![("p.patch".into(), B::new(data_patch))], series: B::new(data_series), applied: None, dirs: vec![] };
+            let spec = WsSpec { tree, patches: vec![("p.patch".into(), B::new(data_patch))], series: B::new(data_series), applied: None, dirs: vec![], symlinks: vec![] };
             let root = cx.env.fresh_dir("c11-");
             spec.materialise(&root);
             let mut args = ws::base_args(case.threads.max(1));
